@@ -124,7 +124,8 @@ Proof.
     cbn [snd]. destruct W as (Wt & Ws & Wr). unfold wf; cbn [st_temps st_stored st_retained]; repeat split; auto.
     + apply (nodup_aremove N.eqb N.eqb_eq); exact Wt.
     + destruct (alookup N.eqb c (st_sess st)) as [[x|i]|]; try exact Ws.
-      destruct (alookup bytes_eqb i (st_stored st)); [apply (nodup_aset bytes_eqb bytes_eqb_eq)|]; exact Ws.
+      destruct (alookup bytes_eqb i (st_stored st)) as [s0|]; [|exact Ws].
+      destruct (option_eqb N.eqb (s_act s0) (Some c)); [apply (nodup_aset bytes_eqb bytes_eqb_eq)|]; exact Ws.
   - unfold close_backend. cbn [snd]. revert W; apply wf_same_maps; reflexivity.
 Qed.
 
